@@ -190,9 +190,72 @@ def body_call(case):
     if spec.mutator and obj is not None and freeze(obj) != freeze(obj2):
         raise Violation("%s left two equal objects in different states" % site, site=site,
                         kind="repeat_differs")
+    labels = [site]
+    warm = case.get("warm")
+    if warm is not None:
+        _check_reuse(case, warm, spec, site, r1)
+        labels.append("reuse:" + site.split(".")[0])
     check_module_state(site)
     nontrivial = obj is not None or any(isinstance(a, MUTABLE) for a in args)
-    return {"labels": [site], "nontrivial": nontrivial}
+    return {"labels": labels, "nontrivial": nontrivial}
+
+
+def _reload(dst, src_enc, src_obj):
+    """Give the already used object `dst` the value of `src_obj` through the public
+    mutators; returns False when the class has no such mutator."""
+    if isinstance(dst, Angle) and isinstance(src_obj, Angle):
+        dst.set(src_obj)
+        dst.set_tolerance(src_obj.get_tolerance())
+        return True
+    if isinstance(dst, Epoch) and isinstance(src_obj, Epoch):
+        dst.set(src_obj)
+        return True
+    if isinstance(dst, (Interpolation, CurveFitting)) and type(dst) is type(src_obj) \
+            and isinstance(src_enc, dict) and "$o" in src_enc:
+        dst.set(*[dec(a) for a in src_enc["a"]])
+        if isinstance(dst, Interpolation):
+            dst.set_tolerance(src_obj.get_tolerance())
+        return True
+    return False
+
+
+def _check_reuse(case, warm, spec, site, r_fresh):
+    """Metamorphic relation: objects that were already used in another call and then
+    re-loaded through set() with the values of this case behave like fresh objects."""
+    try:
+        wobj, wargs, wkwargs, wthunk = _invoke(warm)
+    except Exception:
+        return
+    try:
+        wthunk()
+    except Exception:
+        pass
+    obj, args, kwargs, _ = _invoke(case)
+    reused = 0
+    use_self = obj
+    if obj is not None and wobj is not None and _reload(wobj, case["self"], obj):
+        use_self = wobj
+        reused += 1
+    use_args = list(args)
+    for i, a in enumerate(args):
+        if i < len(wargs) and _reload(wargs[i], case["args"][i], a):
+            use_args[i] = wargs[i]
+            reused += 1
+    if not reused:
+        return
+    try:
+        if use_self is not None:
+            res = getattr(use_self, site.split(".")[-1])(*use_args, **kwargs)
+        else:
+            res = spec.resolve()(*use_args, **kwargs)
+    except Exception as e:
+        raise Violation("%s raised %s: %s when called with objects that had been used before and "
+                        "re-loaded through set(); the same call with fresh objects succeeds"
+                        % (site, type(e).__name__, e), site=site, kind="reuse_differs")
+    if freeze(res) != r_fresh and not (res is use_self):
+        raise Violation("%s returned %r with objects that had been used before and re-loaded through "
+                        "set(), but %r with fresh objects of the same value" % (site, res, r_fresh),
+                        site=site, kind="reuse_differs")
 
 
 def _self_returning(res, obj, res2, obj2):
@@ -347,6 +410,7 @@ def body_history(case):
     xs, ys = case["table"]
     IP = [Interpolation(list(xs), list(ys))]
     sIP = [(list(xs), list(ys))]
+    CF = []
     ghosts = []          # (object, frozen) objects that were replaced in a pool: must stay as they were
     memo = {}
     check_module_state("startup")
@@ -468,10 +532,24 @@ def body_history(case):
                 raise Violation("Interpolation call returned %r then %r for equal arguments" % (memo[key], r),
                                 site="history:interp_call", kind="repeat_differs", step=n)
             memo[key] = freeze(r)
+        elif op == "interp_solve":
+            ip = IP[0]
+            fresh = Interpolation(list(sIP[0][0]), list(sIP[0][1]))
+            outs = []
+            for o in (ip, fresh):
+                try:
+                    outs.append(freeze(o.minmax() if step.get("d") else o.root()))
+                except ValueError as ex:
+                    outs.append(("ValueError", str(ex)))
+            if outs[0] != outs[1]:
+                raise Violation("Interpolation.%s() returned %r on an object with a history but %r on a fresh "
+                                "object with the same table" % ("minmax" if step.get("d") else "root", outs[0], outs[1]),
+                                site="history:interp_solve", kind="history_dependent", step=n)
         elif op == "interp_set":
             xs2 = [v + 0.5 for v in sIP[0][0]]
-            IP[0].set(xs2, list(sIP[0][1]))
-            sIP[0] = (xs2, list(sIP[0][1]))
+            ys2 = [v * v - x for v, x in zip(sIP[0][1], xs2)] if step.get("d") else list(sIP[0][1])
+            IP[0].set(xs2, list(ys2))
+            sIP[0] = (xs2, list(ys2))
             nmut += 1
         elif op == "interp_copy":
             IP.append(Interpolation(IP[0]))
@@ -480,12 +558,34 @@ def body_history(case):
             sIP[0], sIP[-1] = sIP[-1], sIP[0]
             ncopy += 1
         elif op == "fit":
-            cf = CurveFitting(list(sIP[0][0]), list(sIP[0][1]))
+            # a pooled CurveFitting object is re-loaded through set() (after having been used
+            # on other, possibly degenerate, data) and compared with a fresh one
+            if not CF:
+                CF.append(CurveFitting([1.0, 1.0, 1.0], [1.0, 2.0, 4.0]))
+                try:
+                    CF[0].quadratic_fitting()
+                except ZeroDivisionError:
+                    pass
+            CF[0].set(list(sIP[0][0]), list(sIP[0][1]))
+            fresh = CurveFitting(list(sIP[0][0]), list(sIP[0][1]))
+            outs = []
+            for cf in (CF[0], fresh):
+                try:
+                    outs.append(freeze((cf.linear_fitting(), cf.quadratic_fitting(), cf.correlation_coeff())))
+                except ZeroDivisionError:
+                    outs.append("zerodiv")
+            if step.get("d"):
+                CF[0].set([2.0, 2.0, 3.0], [1.0, 2.0, 4.0])
+                try:
+                    CF[0].quadratic_fitting()
+                except ZeroDivisionError:
+                    pass
+            if outs[0] != outs[1]:
+                raise Violation("CurveFitting fits returned %r on an object re-loaded through set() but %r on a "
+                                "fresh object with the same data" % (outs[0], outs[1]),
+                                site="history:fit", kind="history_dependent", step=n)
             key = ("fit", freeze(sIP[0]))
-            try:
-                r = freeze((cf.linear_fitting(), cf.correlation_coeff()))
-            except ZeroDivisionError:
-                r = "zerodiv"
+            r = outs[1]
             if key in memo and memo[key] != r:
                 raise Violation("CurveFitting returned different results for equal data",
                                 site="history:fit", kind="repeat_differs", step=n)
@@ -499,6 +599,19 @@ def body_history(case):
                 r = freeze(thunk())
             except ValueError as ex:
                 r = ("ValueError", str(ex))
+            # the same call on fresh objects holding the same values
+            fA = [Angle(v) for v in sA]
+            for fa, a in zip(fA, A):
+                fa.set_tolerance(a.get_tolerance())
+            fE = [Epoch(v) for v in sE]
+            try:
+                rf = freeze(_call_pure(name, fA, fE, i, j, k)())
+            except ValueError as ex:
+                rf = ("ValueError", str(ex))
+            if rf != r:
+                raise Violation("%s returned %r on objects with a history (copied / re-set / operated on) "
+                                "but %r on fresh objects holding the same values" % (name, r, rf),
+                                site="history:" + name, kind="history_dependent", step=n)
             if key in memo and memo[key] != r:
                 raise Violation("%s returned %r earlier in the history and %r now for equal arguments"
                                 % (name, memo[key], r), site="history:" + name, kind="repeat_differs", step=n)
@@ -610,7 +723,14 @@ for _k, _s in API.items():
 def call_cases(keys):
     def one(key):
         return API[key].case_strategy().map(lambda c: dict(c, key=key))
-    base = st.sampled_from(keys).flatmap(one)
+    def one_warm(key):
+        sp = API[key]
+        cs = sp.case_strategy()
+        if key.startswith("CurveFitting.CurveFitting.") and sp.self_st is not None:
+            cs = st.builds(lambda c, w: dict(c, self=w), cs, api.WARM_FIT)
+        return cs.map(lambda c: dict(c, key=key))
+    base = st.sampled_from(keys).flatmap(
+        lambda key: st.builds(lambda c, w: dict(c, warm=w), one(key), st.one_of(st.none(), one_warm(key))))
     other = st.one_of(st.none(), st.sampled_from(sorted(API)).flatmap(one))
     return st.builds(lambda c, o: dict(c, other=o), base, other)
 
@@ -685,7 +805,9 @@ def history_cases():
         st.builds(lambda i, j: {"op": "epoch_set", "i": i, "jde": j}, idx, jde),
         st.builds(lambda i, j: {"op": "epoch_set_from", "i": i, "j": j}, idx, idx),
         st.builds(lambda x, d: {"op": "interp_call", "x": x, "d": d}, st.floats(0, 1), st.booleans()),
-        st.just({"op": "interp_set"}), st.just({"op": "interp_copy"}), st.just({"op": "fit"}),
+        st.builds(lambda d: {"op": "interp_set", "d": d}, st.booleans()), st.just({"op": "interp_copy"}),
+        st.builds(lambda d: {"op": "fit", "d": d}, st.booleans()),
+        st.builds(lambda d: {"op": "interp_solve", "d": d}, st.booleans()),
         st.builds(lambda f, i, j, k: {"op": "pure", "fn": f, "i": i, "j": j, "k": k},
                   st.sampled_from(PURE_ANGLE_FUNCS + PURE_EPOCH_FUNCS), idx, idx, idx),
         st.builds(lambda f, i, j, k: {"op": "pure", "fn": f, "i": i, "j": j, "k": k},
